@@ -208,3 +208,59 @@ func TestTableOwnKeysReach(t *testing.T) {
 	pk.Exhaustive("table-own-keys-reach")
 	col.Done(t)
 }
+
+// checkAgree: the program completes on both runtimes with the same output (used where the text a member answers
+// with is not fixed by the property, but its existence and the agreement of the runtimes are).
+func checkAgree(c px.ProgCase) *pk.Failure {
+	resp := px.Pool().Exec(c.Request("vm", "tree"))
+	if f := px.SandboxFailure("agree", resp); f != nil {
+		f.Msg = c.Note + "\n" + px.ProgText(c) + "\n" + f.Msg
+		return f
+	}
+	if resp.Inconclusive {
+		pk.Inconclusive()
+		return nil
+	}
+	if !resp.Accepted {
+		return pk.Failf("agree", "table-rejected", "analyzer rejected the table program %s\n%s", c.Note, px.ProgText(c))
+	}
+	vm, tr := resp.Run("vm"), resp.Run("tree")
+	if vm == nil || tr == nil {
+		return pk.Failf("agree", "harness-error", "missing run result")
+	}
+	for _, r := range []*sb.RunResult{vm, tr} {
+		if r.Outcome.Class != "ok" {
+			return pk.Failf("agree", r.Backend+" agree:outcome", "%s on %s: outcome %s/%s %q after %q\n%s", c.Note, r.Backend, r.Outcome.Class, r.Outcome.Kind, r.Outcome.Message, strings.Join(r.Writes, ""), px.ProgText(c))
+		}
+	}
+	if a, b := strings.Join(vm.Writes, ""), strings.Join(tr.Writes, ""); a != b {
+		return pk.Failf("agree", "agree:writes", "%s: the runtimes print different text\n  vm:   %q\n  tree: %q\n%s", c.Note, a, b, px.ProgText(c))
+	}
+	return nil
+}
+
+func init() { pk.Reg("agree", checkAgree) }
+
+// `{ ? }.get_type` answers for a stored value of EVERY kind, function values of each sort included.
+func TestTableGetTypeKinds(t *testing.T) {
+	pk.SkipIfReplay(t)
+	col := pk.NewCollector()
+	stored := []struct{ key, expr string }{
+		{"i", "1"}, {"f", "1.5"}, {"b", "true"}, {"s", `"x"`}, {"l", "[1]"}, {"le", "el"}, {"o", "new { a: 1 }"}, {"a", "new { ? }"}, {"opt", "?1"}, {"no", "nn"},
+		{"r", "0..2"}, {"bf", "println"}, {"bf2", "debug"}, {"mf", `"abc".len`}, {"mf2", "[1].push"}, {"uf", "helper"}, {"lam", "fn(x: int) -> int { x }"},
+		{"nested", "[[?1]]"}, {"of", "new { f: print }"},
+	}
+	for k, st := range stored {
+		if !pk.Mine(k) {
+			continue
+		}
+		body := fmt.Sprintf("let el: [int] = [];\n    let nn: ?int = none;\n    let o = new { ? };\n    o.set(%q, %s);\n    o.set(\"other\", 0);\n    println(o.get_type(%q), o.get_type(\"other\"));\n    println(o.get(%q).is_some(), o.keys().len());", st.key, st.expr, st.key, st.key)
+		c := px.ProgCase{Modules: map[string]string{"main": "fn helper(x: int) -> int { x }\nfn main() {\n    " + body + "\n}\n"}, Entry: "main", Limits: sb.DefaultLimits(),
+			Note: "get_type of a stored " + st.key}
+		pk.Eval()
+		pk.NonTrivial(c.Note, map[string]any{"stored": st.expr})
+		col.Report(c, checkAgree(c))
+	}
+	pk.Exhaustive("table-get-type-kinds")
+	col.Done(t)
+}
